@@ -105,6 +105,18 @@ fn run_resource(sx: &sexpr::Sx) -> Vec<String> {
             })));
         });
         let (dep, res) = (dep.unwrap(), res.unwrap());
+        // `(resource (STEPS) fb)`: a feedback edge from the resource's value to its dependency, behind a selector: when the
+        // value ends in 7 the dependency is moved on to value + 1 (following a redirect, loading the next page)
+        if sx.list().len() > 2 && sx.list()[2].atom() == "fb" {
+            root.run_in(|| {
+                let moved = create_selector(move || res.get_clone().filter(|v| v.rem_euclid(10) == 7));
+                create_effect(on(moved, move || {
+                    if let Some(v) = moved.get() {
+                        dep.set(v + 1);
+                    }
+                }));
+            });
+        }
         let settle = || async {
             for _ in 0..24 {
                 tokio::task::yield_now().await;
